@@ -1,8 +1,211 @@
-import Heph.Model.Graph
+import Heph.Proofs.GraphBfs
+import Heph.Proofs.GraphDfs
+import Heph.Proofs.GraphSrc
+import Heph.Proofs.GraphPaths
+import Heph.Proofs.GraphLongest
+import Heph.Proofs.GraphWalk
+import Heph.Proofs.GraphAll
+/-!
+# C19 — graph queries agree with their textbook definitions
+
+The property theorems about the model `Heph/Model/Graph.lean` of `src/graph_utils.py`; the
+declarative notions (`Reach`, `ReachAny`, `Conn`, `BiReach`, `SimplePath`, `MaximalPath`,
+`IsSourceOf`, `AdjNodup`) are in `Heph/Spec/Graph.lean`, the helper lemmas (worklist
+invariants, fuel adequacy) in `Heph/Proofs/Graph*.lean`.
+
+Every theorem states both the exact characterisation of the answer and that there is an
+answer (`some …`/`.ok …`: the fuel of the worklist never runs out).  `WFG g` says that the
+keys of the dictionary are distinct (true of every Python `dict`); theorems that hold without
+it do not assume it.  Graphs may have cycles, self-loops, isolated keys, duplicate neighbours
+and neighbours that are not keys.
+-/
 namespace Heph.Props.C19
 open Heph.Graph
 
-theorem existIn_irrefl (x : List Nat) : existIn x x = false := by
-  simp [existIn]
+/-- a graph with a cycle `0 → 1 → 0`, a self-loop on `2`, an isolated key `3`, a dangling
+    (non-key) target `7` and a duplicate neighbour -/
+def demo : Graph := [(0, [1, 2, 1]), (1, [0]), (2, [2, 7]), (3, [])]
+
+/-- the same without the duplicate neighbour -/
+def demo2 : Graph := [(0, [1, 2]), (1, [0]), (2, [2, 7]), (3, [])]
+
+/-! ## `reachable` -/
+
+/-- `reachable` always answers, and answers `True` exactly when the start vertex is a key and
+    the destination is reachable from it through key vertices. -/
+theorem reachable_iff {g : Graph} (hg : WFG g) (s d : Nat) :
+    (reachable g s d = some true ↔ s ∈ keys g ∧ Reach g s d) ∧ reachable g s d ≠ none := by
+  rcases reachable_correct hg s d with h | h
+  · simp [h.1, h.2]
+  · simp [h.1, h.2]
+
+example : WFG demo ∧ reachable demo 1 2 = some true ∧ reachable demo 2 0 = some false ∧
+    reachable demo 0 7 = some false ∧ reachable demo 7 7 = some false := by decide
+
+/-- the `False` answers of `reachable` (equivalent to `reachable_iff`) -/
+theorem reachable_false_iff {g : Graph} (hg : WFG g) (s d : Nat) :
+    reachable g s d = some false ↔ ¬ (s ∈ keys g ∧ Reach g s d) := by
+  rcases reachable_correct hg s d with h | h
+  · simp [h.1, h.2]
+  · simp [h.1, h.2]
+
+/-! ## `dfs` -/
+
+/-- `dfs` (the traversal used by the feasibility check of type inference) always answers, with
+    exactly the vertices other than the source that can be reached from it in one or more
+    steps, through key and non-key targets alike.  Holds for every graph (`WFG` not needed). -/
+theorem dfs_spec (g : Graph) (s : Nat) :
+    ∃ l, dfs g s = some l ∧ ∀ n, n ∈ l ↔ n ≠ s ∧ ReachAny g s n :=
+  dfs_correct g s
+
+example : dfs demo 0 = some [1, 2, 7] ∧ dfs demo 2 = some [7] ∧ dfs demo 7 = some [] := by decide
+
+/-! ## `connected` -/
+
+/-- `connected` always answers, and answers `True` exactly when the start vertex is a key and
+    the destination is weakly connected to it. -/
+theorem connected_iff {g : Graph} (hg : WFG g) (s d : Nat) :
+    (connected g s d = some true ↔ s ∈ keys g ∧ Conn g s d) ∧ connected g s d ≠ none := by
+  rcases connected_correct hg s d with h | h
+  · simp [h.1, h.2]
+  · simp [h.1, h.2]
+
+example : WFG demo ∧ connected demo 2 1 = some true ∧ connected demo 2 3 = some false ∧
+    connected demo 2 7 = some false := by decide
+
+/-! ## `find_sources` -/
+
+/-- `find_sources` on a key vertex returns, without duplicates, exactly the keys without
+    predecessor from which the vertex is reachable; on a vertex that is not a key it raises
+    `KeyError` (and only then). -/
+theorem sources_spec {g : Graph} (hg : WFG g) (v : Nat) :
+    (v ∈ keys g → ∃ l, findSources g v = .ok l ∧ l.Nodup ∧
+      ∀ x, x ∈ l ↔ x ∈ keys g ∧ (∀ y ∈ keys g, x ∉ adj g y) ∧ Reach g x v) ∧
+    (findSources g v = .keyError ↔ v ∉ keys g) := by
+  refine ⟨findSources_correct hg v, ?_, findSources_keyError g v⟩
+  intro h hv
+  obtain ⟨l, e, _⟩ := findSources_correct hg v hv
+  rw [e] at h; cases h
+
+example : WFG [(0, [1]), (1, [2, 1]), (2, [1]), (4, [2])] ∧
+    findSources [(0, [1]), (1, [2, 1]), (2, [1]), (4, [2])] 1 = .ok [4, 0] ∧
+    findSources demo 0 = .ok [] ∧ findSources demo 3 = .ok [3] ∧
+    findSources demo 7 = .keyError := by decide
+
+/-! ## `find_all_paths` -/
+
+/-- `find_all_paths` always answers, with exactly the simple paths from the start vertex
+    (paths without repeated vertex whose non-final vertices are keys); when no adjacency list
+    has a duplicate entry, no path is listed twice.  Holds for every graph (`WFG` not needed). -/
+theorem allPaths_spec (g : Graph) (s : Nat) :
+    ∃ l, findAllPaths g s = some l ∧ (∀ p, p ∈ l ↔ SimplePath g s p) ∧ (AdjNodup g → l.Nodup) :=
+  findAllPaths_correct g s
+
+example : findAllPaths demo2 0 = some [[0], [0, 1], [0, 2], [0, 2, 7]] ∧
+    findAllPaths demo2 7 = some [[7]] := by decide
+
+example : WFG demo2 ∧ AdjNodup demo2 := by
+  refine ⟨by decide, fun v => ?_⟩
+  simp only [demo2, adj_cons, adj_nil]
+  repeat' split
+  all_goals decide
+
+/-- without `AdjNodup` a path can be listed twice (Python does the same) -/
+example : findAllPaths demo 0 = some [[0], [0, 1], [0, 2], [0, 2, 7], [0, 1]] := by decide
+
+/-! ## `find_longest_paths` -/
+
+/-- `find_longest_paths` always answers, with exactly the maximal simple paths from the vertex:
+    the simple paths that are not a proper prefix of another simple path from it. -/
+theorem longestPaths_spec (g : Graph) (s : Nat) :
+    ∃ l, findLongestPaths g s = some l ∧ (∀ p, p ∈ l ↔ MaximalPath g s p) ∧
+      (AdjNodup g → l.Nodup) :=
+  findLongestPaths_correct g s
+
+/-- the same, relative to the answer of `find_all_paths` -/
+theorem longestPaths_relative (g : Graph) (s : Nat) :
+    ∃ l all, findLongestPaths g s = some l ∧ findAllPaths g s = some all ∧
+      ∀ p, p ∈ l ↔ p ∈ all ∧ ∀ q ∈ all, p <+: q → q = p := by
+  obtain ⟨l, e, hl, _⟩ := findLongestPaths_correct g s
+  obtain ⟨all, e', hall, _⟩ := findAllPaths_correct g s
+  refine ⟨l, all, e, e', ?_⟩
+  intro p
+  rw [hl, hall]
+  simp only [MaximalPath, hall]
+
+example : findLongestPaths demo2 0 = some [[0, 1], [0, 2, 7]] ∧
+    findLongestPaths demo2 3 = some [[3]] ∧
+    findLongestPaths [(0, [1]), (1, [2]), (2, [3]), (3, [])] 0 = some [[0, 1, 2, 3]] := by decide
+
+/-! ## `find_all_reachable` -/
+
+/-- `find_all_reachable` always answers with a set: exactly the vertices lying on a simple
+    path from the vertex, that is, the vertex itself and everything reachable from it. -/
+theorem allReachable_spec (g : Graph) (s : Nat) :
+    ∃ l, findAllReachable g s = some l ∧ l.Nodup ∧
+      (∀ x, x ∈ l ↔ ∃ p, SimplePath g s p ∧ x ∈ p) ∧
+      (∀ x, x ∈ l ↔ x = s ∨ ReachAny g s x) := by
+  obtain ⟨l, e, hn, hl⟩ := findAllReachable_correct g s
+  exact ⟨l, e, hn, hl, fun x => (hl x).trans (onSimplePath_iff g s x)⟩
+
+example : findAllReachable demo 0 = some [0, 1, 2, 7] ∧ findAllReachable demo 7 = some [7] := by
+  decide
+
+/-! ## `bi_reachable`, `find_all_bi_reachable`, `find_all_connected` -/
+
+/-- `bi_reachable` always answers, and answers `True` exactly when one of the two vertices is
+    a key from which the other is reachable. -/
+theorem biReachable_iff {g : Graph} (hg : WFG g) (s d : Nat) :
+    (biReachable g s d = some true ↔
+      (s ∈ keys g ∧ Reach g s d) ∨ (d ∈ keys g ∧ Reach g d s)) ∧ biReachable g s d ≠ none := by
+  rcases biReachable_correct hg s d with h | h
+  · have := h.2; unfold BiReach at this; simp [h.1, this]
+  · have := h.2; unfold BiReach at this; simp [h.1, this]
+
+example : WFG demo ∧ biReachable demo 2 0 = some true ∧ biReachable demo 3 0 = some false := by
+  decide
+
+/-- `find_all_bi_reachable` always answers with a set: exactly the keys that reach, or are
+    reached from, the vertex. -/
+theorem allBiReachable_spec {g : Graph} (hg : WFG g) (v : Nat) :
+    ∃ l, findAllBiReachable g v = some l ∧ l.Nodup ∧
+      ∀ x, x ∈ l ↔ x ∈ keys g ∧ ((v ∈ keys g ∧ Reach g v x) ∨ (x ∈ keys g ∧ Reach g x v)) :=
+  findAllBiReachable_correct hg v
+
+example : WFG demo ∧ findAllBiReachable demo 2 = some [0, 1, 2] ∧
+    findAllBiReachable demo 7 = some [] := by decide
+
+/-- `find_all_connected` always answers with a set: exactly the keys weakly connected to the
+    vertex (none if the vertex is not a key). -/
+theorem allConnected_spec {g : Graph} (hg : WFG g) (v : Nat) :
+    ∃ l, findAllConnected g v = some l ∧ l.Nodup ∧
+      ∀ x, x ∈ l ↔ x ∈ keys g ∧ v ∈ keys g ∧ Conn g v x :=
+  findAllConnected_correct hg v
+
+example : WFG demo ∧ findAllConnected demo 2 = some [0, 1, 2] ∧
+    findAllConnected demo 3 = some [3] := by decide
+
+/-! ## `none_reachable`, `none_connected` -/
+
+/-- `none_reachable` always answers, and answers `True` exactly when some key bi-reachable
+    from the vertex is bi-reachable with the distinguished node. -/
+theorem noneReachable_iff {g : Graph} (hg : WFG g) (v nn : Nat) :
+    (noneReachable g v nn = some true ↔ ∃ x ∈ keys g, BiReach g v x ∧ BiReach g x nn) ∧
+    noneReachable g v nn ≠ none := by
+  rcases noneReachable_correct hg v nn with h | h
+  · simp only [h.1, true_iff, ne_eq, reduceCtorEq, not_false_eq_true, and_true]; exact h.2
+  · simp only [h.1, ne_eq, reduceCtorEq, not_false_eq_true, and_true, Option.some.injEq,
+      Bool.false_eq_true, false_iff]; exact h.2
+
+/-- `none_connected` always answers, and answers the same as `connected`. -/
+theorem noneConnected_iff {g : Graph} (hg : WFG g) (v nn : Nat) :
+    (noneConnected g v nn = some true ↔ v ∈ keys g ∧ Conn g v nn) ∧
+    noneConnected g v nn ≠ none := by
+  rcases noneConnected_correct hg v nn with h | h
+  · simp [h.1, h.2]
+  · simp [h.1, h.2]
+
+example : WFG demo ∧ noneReachable demo 1 2 = some true ∧ noneConnected demo 1 3 = some false := by
+  decide
 
 end Heph.Props.C19
